@@ -38,7 +38,7 @@ void h_cieq(void) { iora_sv a, b; bool r = ciEquals(a, b); IORA_CANARY("h_cieq: 
 #define PCL_PRE \
 __CPROVER_requires(IORA_TRUE && iora_exc == EXC_NONE && v.n <= HM_MAXLEN) \
 __CPROVER_requires(__CPROVER_is_fresh(v.p, v.n + 1)) \
-__CPROVER_requires(!HL.seen && !HL.c0_set && !HL.v0_set) \
+__CPROVER_requires((HL.seen == 0) && (HL.c0_set == 0) && (HL.v0_set == 0)) \
 __CPROVER_assigns(iora_exc, HL)
 #define PCL_GS (NOEXC & (GS <= v.n) & SEGSTART(v, GS <= v.n ? GS : 0))
 /* proof pcl_safety: built-in checks (bounds, pointers, signed + unsigned overflow), shim preconditions, frame, variant (termination) */
@@ -51,7 +51,7 @@ __CPROVER_ensures(iora_exc == EXC_NONE || iora_exc == EXC_HttpFramingError)
 uint64_t pcl_elements(iora_sv v)
 PCL_PRE
 /* P1 the element starting at GS was converted and its value is the result (so all elements have the same value) */
-__CPROVER_ensures(PCL_GS ==> (HL.seen & (HL.s_val == R)))
+__CPROVER_ensures(PCL_GS ==> ((HL.seen != 0) & (HL.s_val == R)))
 /* P2 its bounds: GS <= a < b1 <= e <= n, e is the end of the string or a comma */
 __CPROVER_ensures(PCL_GS ==> (ELEM_SHAPE(v, GS, HL.s_a, HL.s_b1, HL.s_end) & SEGEND(v, SAT(HL.s_end))))
 /* P3 no comma inside, only OWS around the token (arbitrary index GQ), token starts and ends with a non-OWS byte */
@@ -65,12 +65,12 @@ __CPROVER_ensures(PCL_GS ==> ELEM_DIGIT_AT(v, HL.s_a, HL.s_b1, GD))
 #define PCL_ALLDIG_AT(t) IMPB((t) < v.n, HM_DIG(RDQ(v, t)))
 uint64_t pcl_accept(iora_sv v)
 PCL_PRE
-/* P5 */ __CPROVER_ensures(((v.n >= 1) & (v.n <= 19) & PCL_ALLDIG_AT(0) & PCL_ALLDIG_AT(v.n - 1) & PCL_ALLDIG_AT(GB) & (HL.c0_set ==> PCL_ALLDIG_AT(HL.c0))) ==> NOEXC)
+/* P5 */ __CPROVER_ensures(((v.n >= 1) & (v.n <= 19) & PCL_ALLDIG_AT(0) & PCL_ALLDIG_AT(v.n - 1) & PCL_ALLDIG_AT(GB) & ((HL.c0_set != 0) ==> PCL_ALLDIG_AT(HL.c0))) ==> NOEXC)
 /* P6 one- and two-digit values are exact */
 __CPROVER_ensures(((v.n == 1) & HM_DIG(RDQ(v, 0))) ==> (NOEXC & (R == DG_V(RDQ(v, 0)))))
 __CPROVER_ensures(((v.n == 2) & HM_DIG(RDQ(v, 0)) & HM_DIG(RDQ(v, 1))) ==> (NOEXC & (R == DG_V(RDQ(v, 0)) * 10 + DG_V(RDQ(v, 1)))))
 /* P7 the result is the value from_chars produced for the FIRST element */
-__CPROVER_ensures(NOEXC ==> (HL.v0_set & (HL.v0 == R)))
+__CPROVER_ensures(NOEXC ==> ((HL.v0_set != 0) & (HL.v0 == R)))
 ;
 void h_pcl(void)
 {
@@ -84,18 +84,18 @@ void h_pcl(void)
 #define TE_PRE \
 __CPROVER_requires(IORA_TRUE && v.n <= HM_MAXLEN) \
 __CPROVER_requires(__CPROVER_is_fresh(v.p, v.n + 1)) \
-__CPROVER_requires(!HL.has_last) \
+__CPROVER_requires((HL.has_last == 0)) \
 __CPROVER_assigns(HL)
 bool te_safety(iora_sv v)
 TE_PRE
-__CPROVER_ensures(R ==> HL.has_last)
+__CPROVER_ensures(R ==> (HL.has_last != 0))
 ;
 bool te_exact(iora_sv v)
 TE_PRE
 /* T1/T2 the result is true exactly when the last non-empty element's token is the 7 bytes "chunked" in any letter case */
-__CPROVER_ensures(R == (HL.has_last & (HL.lt_n == 7) & CI_CHUNKED(v, SAT(HL.lt_a))))
+__CPROVER_ensures(R == ((HL.has_last != 0) & (HL.lt_n == 7) & CI_CHUNKED(v, SAT(HL.lt_a))))
 /* T3 that token is a properly delimited, OWS-trimmed list element */
-__CPROVER_ensures(HL.has_last ==> TE_LAST_OK(v))
+__CPROVER_ensures((HL.has_last != 0) ==> TE_LAST_OK(v))
 /* T4 and it is the LAST non-empty one: after its element there are only commas and OWS (arbitrary index GQ) */
 __CPROVER_ensures(TE_TAIL_BLANK(v, v.n))
 ;
